@@ -49,6 +49,11 @@ type FileSpec struct {
 	// ProfileVer != 0: the File's header carries this profile version (a
 	// File decoded from a device file carries the device's, not the library's)
 	ProfileVer uint16 `json:"profile_version,omitempty"`
+	// Aliased: the array fields of the File are overlapping views of one
+	// buffer per element type (prof.AliasArrays), as in a program that cuts a
+	// sample buffer into per-message pieces. BuildFile ignores it; the checks
+	// that encode apply it.
+	Aliased bool `json:"aliased_arrays,omitempty"`
 }
 
 // FileOpts steers GenFile.
@@ -299,6 +304,7 @@ func GenFile(d D, o FileOpts) *FileSpec {
 	if d.Chance(25, "v10") {
 		fs.Proto = 0x10
 	}
+	fs.Aliased = d.Int(0, 3, "aliased") == 0
 	fs.FileId = DrawMsg(d, 0, &o)
 	for _, s := range prof.FileSlots() {
 		if s.Name == "FileId" {
